@@ -102,7 +102,15 @@ func renderSeg(seg mseg) string {
 		return `\` + seg.S
 	case "open":
 		return marker(false)
-	case "self", "select", "plural", "ordinal":
+	case "self":
+		return marker(true)
+	case "select", "plural", "ordinal":
+		switch seg.Close {
+		case "name":
+			return marker(false) + seg.S + "[" + pad() + "/" + pad() + seg.Name + pad() + "]"
+		case "all":
+			return marker(false) + seg.S + "[/]"
+		}
 		return marker(true)
 	case "close":
 		return "[" + pad() + "/" + pad() + seg.Name + pad() + "]"
@@ -210,7 +218,10 @@ func replacementText(seg mseg, props map[string]markup.Value) (string, error) {
 	if !ok {
 		return "", fmt.Errorf("no case %q", key)
 	}
-	return strings.ReplaceAll(displayValue(rep), "%", displayValue(value)), nil
+	// "%" stands for the value, "\%" for a literal percent sign
+	text := strings.ReplaceAll(displayValue(rep), `\%`, "\x00")
+	text = strings.ReplaceAll(text, "%", displayValue(value))
+	return strings.ReplaceAll(text, "\x00", "%"), nil
 }
 
 // expectMarkup computes what parsing the rendered line must yield.
@@ -292,8 +303,20 @@ func expectMarkup(l markupLine) (markupExpect, error) {
 			if err != nil {
 				return markupExpect{}, err
 			}
-			attrs = append(attrs, wantAttr{seg.K, len(out), 0, props})
-			out = append(out, []rune(rep)...)
+			if seg.Close == "" {
+				attrs = append(attrs, wantAttr{seg.K, len(out), 0, props})
+				out = append(out, []rune(rep)...)
+			} else {
+				// open form: the enclosed source text is replaced, the attribute covers the replacement
+				attrs = append(attrs, wantAttr{seg.K, len(out), utf8.RuneCountInString(rep), props})
+				out = append(out, []rune(rep)...)
+				if seg.Close == "all" {
+					for _, o := range open {
+						attrs = append(attrs, wantAttr{o.name, o.pos, len(out) - o.pos, o.props})
+					}
+					open = nil
+				}
+			}
 		case "nomarkup":
 			if seg.Close == "self" {
 				attrs = append(attrs, wantAttr{"nomarkup", len(out), 0, map[string]markup.Value{}})
@@ -521,9 +544,10 @@ func genReplacement(t *rapid.T) mseg {
 		}
 		seg.Props = append(seg.Props, mprop{"value", kind, keys[k]})
 		for _, key := range keys {
-			seg.Props = append(seg.Props, mprop{key, "quoted", rapid.SampledFrom([]string{"he", "she", "they %", "[%]", "é"}).Draw(t, "case")})
+			seg.Props = append(seg.Props, mprop{key, "quoted", rapid.SampledFrom([]string{"he", "she", "they %", "[%]", "é", `50\% of %`, `%\`, `\%`}).Draw(t, "case")})
 		}
 		seg.Pad = genPads(t)
+		genOpenForm(t, &seg)
 		return seg
 	case 1:
 		seg := mseg{K: "plural", Name: "plural"}
@@ -532,14 +556,16 @@ func genReplacement(t *rapid.T) mseg {
 		} else {
 			seg.Props = append(seg.Props, mprop{"value", "int", rapid.SampledFrom(intValues).Draw(t, "v")})
 		}
-		seg.Props = append(seg.Props, mprop{"one", "quoted", "% apple"}, mprop{"other", "quoted", rapid.SampledFrom([]string{"% apples", "apples", "%%"}).Draw(t, "o")})
+		seg.Props = append(seg.Props, mprop{"one", "quoted", "% apple"}, mprop{"other", "quoted", rapid.SampledFrom([]string{"% apples", "apples", "%%", `%\`, `\% %`}).Draw(t, "o")})
 		seg.Pad = genPads(t)
+		genOpenForm(t, &seg)
 		return seg
 	case 2:
 		seg := mseg{K: "ordinal", Name: "ordinal"}
 		seg.Props = append(seg.Props, mprop{"value", "int", rapid.SampledFrom(intValues).Draw(t, "v")},
 			mprop{"one", "quoted", "%st"}, mprop{"two", "quoted", "%nd"}, mprop{"few", "quoted", "%rd"}, mprop{"other", "quoted", "%th"})
 		seg.Pad = genPads(t)
+		genOpenForm(t, &seg)
 		return seg
 	default:
 		seg := mseg{K: "nomarkup", Name: "nomarkup", Close: rapid.SampledFrom([]string{"name", "name", "all", "self"}).Draw(t, "close")}
@@ -551,6 +577,19 @@ func genReplacement(t *rapid.T) mseg {
 		}
 		return seg
 	}
+}
+
+// genOpenForm turns a self-closing replacement marker into the open form closed by name or by [/] (one in three).
+func genOpenForm(t *rapid.T, seg *mseg) {
+	switch rapid.IntRange(0, 5).Draw(t, "openform") {
+	case 0:
+		seg.Close = "name"
+	case 1:
+		seg.Close = "all"
+	default:
+		return
+	}
+	seg.S = rapid.SampledFrom([]string{"x", "", "é [b]y[/b]", " pad ", "[/q]"}).Draw(t, "enclosed")
 }
 
 // genMarkupLine builds a line on which the property's statement is unambiguous (see DESIGN.md C13).
@@ -630,7 +669,7 @@ func genMarkupLine(t *rapid.T) markupLine {
 			l.Segs = append(l.Segs, seg)
 		default:
 			seg := genReplacement(t)
-			if seg.K == "nomarkup" && seg.Close == "all" {
+			if seg.Close == "all" {
 				open = nil
 			}
 			l.Segs = append(l.Segs, seg)
